@@ -35,7 +35,7 @@ pub fn parse_ledger<'i, Deco: 'i + Decoration>(
     options: &ParseOptions,
     input: &'i str,
 ) -> impl Iterator<Item = Result<(ParsedContext<'i>, syntax::LedgerEntry<'i, Deco>), ParseError>> {
-    options.parse_repeated(parse_ledger_entry, character::newlines.void(), input)
+    options.parse_repeated(parse_ledger_entry, character::vertical_spaces, input)
 }
 
 /// Parses given `input` into [syntax::LedgerEntry].
